@@ -427,6 +427,14 @@ def run_case(case):
                 viol('trash-list-does-not-show-path/several-trash-dirs',
                      want=want_line, got=rl2.outtext()[-500:],
                      err=rl2.errtext()[-300:])
+        if index_of(case) % 3 == 1:
+            # the other output form of trash-list ("original -> backup copy"):
+            # the same location
+            rf = run.run(w, 'list', largs + ['--files'], stdin=b'', contracts=ALLC)
+            obs['listed_with_files_option'] = 1
+            if ('\n' + want_line + ' -> ') not in ('\n' + rf.outtext()):
+                viol('trash-list-does-not-show-path/--files', want=want_line,
+                     got=rf.outtext()[-500:], err=rf.errtext()[-300:])
         rr = run.run(w, 'restore', largs, stdin=b'', cwd=w.R, contracts=ALLC)
         lst = trashio.parse_restore_listing(rr.outtext())
         if not any(p == want_loc and d == date_txt for i, d, p in lst):
